@@ -72,7 +72,7 @@ def make(ck, rnd, n):
         percap = [rnd.choice([4, 8, 16]) for _ in range(len(c.lines) + 3)]
         if rnd.random() < 0.4:      # small capacities exactly on the lines whose INDEX is a port / state-element position
             percap = [4 if x < len(c.s_nodes) else 16 for x in range(len(c.lines) + 3)]
-        mt = dict(reuse=reuse, strip=strip, circuit=gen.circuit_state(c), lanes=lanes, delays=d.tolist(), caps=rnd.choice([4, 4, 8, percap]), inw=wrec.rand_inputs(rnd, c, lanes, multi=True, tmax=40 if parity else 12),
+        mt = dict(reuse=reuse, strip=strip, circuit=gen.circuit_state(c), lanes=lanes, delays=d.tolist(), caps=rnd.choice([4, 4, 8, percap]), inw=wrec.rand_inputs(rnd, c, lanes, multi=True, tmax=40 if parity else 12, tmin=rnd.choice([0, 0, -15, -40])),      # times before 0 are times like any other
                   cls=rnd.choice(['WaveSim', 'WaveSimCuda']), T2=T2, actrl=actrl, warm=wrec.rand_inputs(rnd, c, lanes, multi=True, tmax=12) if rnd.random() < 0.4 else None)
         mt['desc'] = '%s caps=%s strip=%s T=%s actrl=%s' % (mt['cls'], mt['caps'] if isinstance(mt['caps'], int) else 'per-line', strip, 'TMAX' if T2 >= 2 * wrec.INF else T2 / 2, actrl is not None)
         recs.append(build(mt))
